@@ -611,16 +611,26 @@ class EqResult:
         self.skipped = skipped
 
 
-def equiv(a, b, domain=None, n=160, seed=0, override=None, fields=None) -> EqResult:
-    """Decide a == b for all valuations (restricted to `domain`, with optional fixed overrides = a scenario)."""
+def equiv(a, b, domain=None, n=160, seed=0, override=None, fields=None, assume=None) -> EqResult:
+    """Decide a == b for all valuations (restricted to `domain`, with optional fixed overrides = a scenario).
+    `assume`: [(condition term, polarity)] - the path condition of the program point the values are compared at; valuations
+    that do not satisfy it are not points of the comparison."""
     if a == b:
         return EqResult(True, "syntactic")
+    if assume:
+        # equal everywhere implies equal on the path; only a difference needs the path condition to be looked at
+        r0 = equiv(a, b, domain=domain, n=n, seed=seed, override=override, fields=fields)
+        if r0.equal is not False:
+            return r0
     tried = skipped = 0
-    for i in range(n * 4):
+    for i in range(n * (12 if assume else 4)):
         if tried >= n:
             break
         val = Valuation(seed * 100003 + i, domain=domain, override=override, fields=fields)
         try:
+            if assume and not all(bool(ev(c, val)) == bool(p) for c, p in assume):
+                skipped += 1
+                continue
             va = ev(a, val)
             vb = ev(b, val)
         except EvalError:
